@@ -20,6 +20,7 @@ type replayFile struct {
 	Property   string            `json:"property"`
 	Unit       string            `json:"unit"`
 	Obligation string            `json:"obligation"`
+	Kind       string            `json:"kind"`
 	Model      map[string]string `json:"model"`
 }
 
@@ -76,10 +77,28 @@ func TestVerifReplay(t *testing.T) {
 		fmt.Println("REPLAY: no-driver for unit", r.Unit)
 		return
 	}
-	ok, detail := drv(t, &r)
+	ok, detail := runDriver(drv, t, &r)
 	if ok {
 		fmt.Println("REPLAY: reproduced", detail)
 	} else {
 		fmt.Println("REPLAY: not-reproduced", detail)
 	}
+}
+
+// runDriver runs a driver and turns a panic of the real code on the model's input into a
+// result: for a failed safety obligation (the verifier said "this can panic") the panic is the
+// reproduction; for any other obligation it is reported but not counted as one.
+func runDriver(drv func(t *testing.T, r *replayFile) (bool, string), t *testing.T, r *replayFile) (ok bool, detail string) {
+	defer func() {
+		if p := recover(); p != nil {
+			detail = fmt.Sprintf("the real code panicked on the input built from the model: %v", p)
+			switch r.Kind {
+			case "bounds", "nil", "divzero", "shift", "typeassert", "panic":
+				ok = true
+			default:
+				ok = false
+			}
+		}
+	}()
+	return drv(t, r)
 }
